@@ -73,6 +73,7 @@ var interpPkgPrefixes = []string{
 	"github.com/secure-systems-lab/go-securesystemslib/dsse",
 	"github.com/secure-systems-lab/go-securesystemslib/signerverifier",
 	"errors",
+	"io",
 	"path",
 	"sort",
 	"slices",
@@ -548,6 +549,7 @@ func newHarnessRun(w *World, cfg *HarnessCfg, tier string, args []int, seed int6
 	}
 	// package initialisers: the harness package and interpretable dependencies that own globals we read
 	for _, pp := range []string{
+		"io",
 		"github.com/secure-systems-lab/go-securesystemslib/dsse",
 		"github.com/secure-systems-lab/go-securesystemslib/signerverifier",
 		repoMod + "/in_toto",
